@@ -10,6 +10,7 @@ import (
 	"go/token"
 	"go/types"
 	"sort"
+	"strings"
 	"unicode"
 
 	"golang.org/x/tools/go/ssa"
@@ -157,34 +158,49 @@ func (w *World) grammar() (*Grammar, error) {
 	if g.NewAxis == nil {
 		return nil, fmt.Errorf("anchor: newAxisNode not found")
 	}
-	// nextItem: scanner method containing a switch on the current rune with
-	// many rune-literal cases that assigns the token field
-	for obj, fd := range w.Decls {
-		if fd.Recv == nil || fd.Body == nil {
-			continue
-		}
-		sig := obj.Type().(*types.Signature)
-		if typeName(sig.Recv().Type()) != g.ScannerT.Obj().Name() {
-			continue
-		}
-		n := 0
-		ast.Inspect(fd.Body, func(x ast.Node) bool {
-			sw, ok := x.(*ast.SwitchStmt)
-			if !ok || sw.Tag == nil {
-				return true
+	// nextItem: the scanner method that code outside the scanner calls to get
+	// the next token: a method of the scanner type, called statically from a
+	// function that is not a scanner method, from which (transitively, staying
+	// among scanner methods) the token field is assigned
+	isScannerMethod := func(f *ssa.Function) bool {
+		return f != nil && f.Signature.Recv() != nil && typeName(f.Signature.Recv().Type()) == g.ScannerT.Obj().Name()
+	}
+	storesTok := func(f *ssa.Function) bool {
+		found := false
+		seen := map[*ssa.Function]bool{}
+		var visit func(x *ssa.Function)
+		visit = func(x *ssa.Function) {
+			if seen[x] || found {
+				return
 			}
-			if tv, ok := w.Info.Types[sw.Tag]; ok {
-				if b, ok := tv.Type.Underlying().(*types.Basic); ok && b.Kind() == types.Int32 {
-					for _, s := range sw.Body.List {
-						n += len(s.(*ast.CaseClause).List)
+			seen[x] = true
+			eachInstr(x, false, func(_ *ssa.Function, in ssa.Instruction) {
+				if st, ok := in.(*ssa.Store); ok {
+					if fa, ok := st.Addr.(*ssa.FieldAddr); ok && fieldOfAddr(fa) == g.TokField {
+						found = true
 					}
 				}
+			})
+			for _, c := range w.pkgCallees(x) {
+				if isScannerMethod(c) {
+					visit(c)
+				}
 			}
-			return true
-		})
-		if n >= 8 {
-			g.NextItemDecl = fd
-			g.NextItem = w.Prog.FuncValue(obj)
+		}
+		visit(f)
+		return found
+	}
+	for _, fn := range w.AllFuncs {
+		if isScannerMethod(fn) {
+			continue
+		}
+		for _, c := range w.pkgCallees(fn) {
+			if isScannerMethod(c) && c.Signature.Params().Len() == 0 && storesTok(c) {
+				g.NextItem = c
+				if obj, ok := c.Object().(*types.Func); ok {
+					g.NextItemDecl = w.Decls[obj]
+				}
+			}
 		}
 	}
 	if g.NextItem == nil {
@@ -292,83 +308,238 @@ func (w *World) runeFuncTable(g *Grammar, call *ast.CallExpr) map[rune]int64 {
 	return out
 }
 
-func (w *World) scannerTables(g *Grammar) error {
-	var sw *ast.SwitchStmt
-	ast.Inspect(g.NextItemDecl.Body, func(x ast.Node) bool {
-		s, ok := x.(*ast.SwitchStmt)
-		if ok && s.Tag != nil && sw == nil {
-			if tv, ok := w.Info.Types[s.Tag]; ok {
-				if b, ok := tv.Type.Underlying().(*types.Basic); ok && b.Kind() == types.Int32 {
-					sw = s
-				}
-			}
-		}
-		return true
-	})
-	if sw == nil {
-		return fmt.Errorf("anchor: rune switch not found in nextItem")
-	}
-	for _, s := range sw.Body.List {
-		cc := s.(*ast.CaseClause)
-		var labels []rune
-		for _, l := range cc.List {
-			if r, ok := w.runeConst(l); ok {
-				labels = append(labels, r)
-			}
-		}
-		if len(labels) == 0 {
-			continue
-		}
-		for _, st := range cc.Body {
-			if rhs := w.tokAssign(g, st); rhs != nil {
-				if tk, ok := w.tokConst(g, rhs); ok {
-					for _, l := range labels {
-						if _, dup := g.TextTok[string(l)]; !dup {
-							g.TextTok[string(l)] = tk
-						}
-					}
-				} else if call, ok := rhs.(*ast.CallExpr); ok {
-					tbl := w.runeFuncTable(g, call)
-					for _, l := range labels {
-						if tk, ok := tbl[l]; ok {
-							g.TextTok[string(l)] = tk
-						} else if l != 0 {
-							g.TextTok[string(l)] = -1 // routed to the table function but has no entry there
-						}
-					}
-				}
-			}
-			// if recv.curr == 'c' { recv.typ = K2 }
-			if ifs, ok := st.(*ast.IfStmt); ok {
-				w.twoCharTokens(g, ifs, labels)
-			}
-		}
-	}
-	return nil
+// scanOutcome: one path of the scanner's nextItem started with a known
+// current character.
+type scanOutcome struct {
+	Text     string // the characters consumed, '?' for a character not fixed by the path
+	Tok      int64  // token constant in the token field at the end (-1: not a known constant)
+	Panicked bool
+	Cut      bool
+	PanicAt  ssa.Instruction
+	Colons   int // number of decisions "current character == ':'" taken as true on the path
+	St       *AState
 }
 
-func (w *World) twoCharTokens(g *Grammar, ifs *ast.IfStmt, labels []rune) {
-	for ifs != nil {
-		if be, ok := ifs.Cond.(*ast.BinaryExpr); ok && be.Op == token.EQL {
-			if r2, ok := w.runeConst(be.Y); ok {
-				if sel, ok := be.X.(*ast.SelectorExpr); ok {
-					if obj, ok := w.Info.Uses[sel.Sel].(*types.Var); ok && obj == g.CurrField {
-						for _, st := range ifs.Body.List {
-							if rhs := w.tokAssign(g, st); rhs != nil {
-								if tk, ok := w.tokConst(g, rhs); ok {
-									for _, l := range labels {
-										g.TextTok[string(l)+string(r2)] = tk
-									}
-								}
-							}
+const consumedField = 100000
+
+// scanFrom propagates "the current character is c" through nextItem (and the
+// scanner methods and package functions it calls), the primitive consumer
+// being read as "append the current character to the consumed text; the
+// current character becomes unknown". Every path yields the consumed text and
+// the token constant left in the token field.
+func (w *World) scanFrom(g *Grammar, c rune) []scanOutcome { return w.scanFromEOF(g, c, -1) }
+
+// scanFromEOF: as scanFrom, but the input ends after eofAfter further
+// characters: from then on the primitive consumer reports failure and the
+// current character is NUL (eofAfter < 0: the input never ends).
+func (w *World) scanFromEOF(g *Grammar, c rune, eofAfter int) []scanOutcome {
+	tabs := w.rangeTables()
+	currIdx := fieldIndex(g.ScannerT, g.CurrField)
+	tokIdx := fieldIndex(g.ScannerT, g.TokField)
+	hooks := AHooks{}
+	hooks.Global = func(st *AState, gl *ssa.Global) *AObj {
+		if v, ok := gl.Object().(*types.Var); ok {
+			if t, ok := tabs[v]; ok {
+				o := st.newObj(gl.Type().(*types.Pointer).Elem(), gl)
+				o.Fields[0] = AVal{Kind: avUnknown, Any: t}
+				return o
+			}
+		}
+		return nil
+	}
+	hooks.Call = func(ai *AInterp, st *AState, site ssa.CallInstruction, callee *ssa.Function, args []AVal) (bool, AVal) {
+		// a pure character predicate applied to a character the path has not
+		// fixed: answered from what the path already decided, otherwise left
+		// unknown so that the caller branches on it (and the decision is kept)
+		if callee != nil && callee.String() == "unicode.IsSpace" && len(args) == 1 && args[0].Kind == avUnknown {
+			if v, ok := args[0].Facts[callee]; ok {
+				return true, aBool(v)
+			}
+			return true, aUnknown(nil)
+		}
+		if w.isRunePredicate(callee) && len(args) == 1 && args[0].Kind == avUnknown {
+			if v, ok := args[0].Facts[callee]; ok {
+				return true, aBool(v)
+			}
+			return true, aUnknown(nil)
+		}
+		if callee != g.NextChar || len(args) == 0 || args[0].Kind != avPtr {
+			return false, AVal{}
+		}
+		o := st.obj(args[0].Obj)
+		text, _ := o.Fields[consumedField].Str()
+		if k, ok := o.Fields[currIdx].Int(); ok {
+			text += string(rune(k))
+		} else {
+			sp := false
+			for f, v := range o.Fields[currIdx].Facts {
+				if f.String() == "unicode.IsSpace" && v {
+					sp = true
+				}
+			}
+			if sp {
+				text += " "
+			} else {
+				text += "?"
+			}
+		}
+		o.Fields[consumedField] = aStr(text)
+		if eofAfter >= 0 && len(text) > eofAfter {
+			o.Fields[currIdx] = aInt(0)
+			return true, aBool(false)
+		}
+		o.Fields[currIdx] = aUnknown(nil)
+		return true, aUnknown(nil)
+	}
+	hooks.Branch = func(ai *AInterp, st *AState, fr *aFrame, cond ssa.Value, taken bool) {
+		for {
+			u, ok := cond.(*ssa.UnOp)
+			if !ok || u.Op != token.NOT {
+				break
+			}
+			cond, taken = u.X, !taken
+		}
+		c, ok := cond.(*ssa.Call)
+		if !ok || c.Call.StaticCallee() == nil || len(c.Call.Args) != 1 {
+			return
+		}
+		if !w.isRunePredicate(c.Call.StaticCallee()) && c.Call.StaticCallee().String() != "unicode.IsSpace" {
+			return
+		}
+		ld, ok := c.Call.Args[0].(*ssa.UnOp)
+		if !ok || ld.Op != token.MUL {
+			return
+		}
+		p := fr.get(ai, st, ld.X)
+		if p.Kind != avPtr {
+			return
+		}
+		o := st.obj(p.Obj)
+		f := p.Field
+		if f < 0 {
+			f = 0
+		}
+		cur := o.Fields[f]
+		if cur.Kind != avUnknown {
+			return
+		}
+		facts := map[*ssa.Function]bool{}
+		for k, v := range cur.Facts {
+			facts[k] = v
+		}
+		facts[c.Call.StaticCallee()] = taken
+		cur.Facts = facts
+		o.Fields[f] = cur
+	}
+	ai := w.newInterp(hooks)
+	ai.MaxVisits = 2
+	st := newAState()
+	sc := st.externObj(g.ScannerT, nil)
+	sc.Fields[currIdx] = aInt(int64(c))
+	sc.Fields[consumedField] = aStr("")
+	outs := ai.Exec(g.NextItem, []AVal{{Kind: avPtr, Obj: sc, Field: -1}}, nil, st)
+	var res []scanOutcome
+	for _, o := range outs {
+		so := scanOutcome{Tok: -1, Panicked: o.Panicked, Cut: o.Cut, St: o.St}
+		obj := o.St.obj(sc)
+		so.Text, _ = obj.Fields[consumedField].Str()
+		if k, ok := obj.Fields[tokIdx].Int(); ok {
+			so.Tok = k
+		}
+		if o.Panicked {
+			so.PanicAt = o.At
+		}
+		for _, ev := range o.St.Trace {
+			if ev.Kind == "branch" && ev.Taken {
+				if ifi, ok := ev.Site.(*ssa.If); ok {
+					if bo, ok := ifi.Cond.(*ssa.BinOp); ok && bo.Op == token.EQL {
+						if k, ok := constInt(bo.Y); ok && k == ':' && w.isCurrLoad(g, bo.X) {
+							so.Colons++
 						}
 					}
 				}
 			}
 		}
-		next, _ := ifs.Else.(*ast.IfStmt)
-		ifs = next
+		res = append(res, so)
 	}
+	return res
+}
+
+func (w *World) isCurrLoad(g *Grammar, v ssa.Value) bool {
+	ld, ok := v.(*ssa.UnOp)
+	if !ok || ld.Op != token.MUL {
+		return false
+	}
+	fa, ok := ld.X.(*ssa.FieldAddr)
+	return ok && fieldOfAddr(fa) == g.CurrField
+}
+
+// isRunePredicate: a package function func(rune) bool without receiver that
+// calls nothing of the package except other such predicates and stores nothing.
+func (w *World) isRunePredicate(f *ssa.Function) bool {
+	if f == nil || !w.inPkg(f) || f.Parent() != nil || f.Signature.Recv() != nil || len(f.Blocks) == 0 {
+		return false
+	}
+	sig := f.Signature
+	if sig.Params().Len() != 1 || sig.Results().Len() != 1 {
+		return false
+	}
+	if b, ok := sig.Params().At(0).Type().Underlying().(*types.Basic); !ok || b.Kind() != types.Int32 {
+		return false
+	}
+	if b, ok := sig.Results().At(0).Type().Underlying().(*types.Basic); !ok || b.Kind() != types.Bool {
+		return false
+	}
+	pure := true
+	eachInstr(f, false, func(_ *ssa.Function, in ssa.Instruction) {
+		switch x := in.(type) {
+		case *ssa.Store, *ssa.MapUpdate, *ssa.Send, *ssa.Go, *ssa.Defer:
+			pure = false
+		case ssa.CallInstruction:
+			if c := x.Common().StaticCallee(); c != nil && w.inPkg(c) && c != f {
+				if !w.isRunePredicate(c) {
+					pure = false
+				}
+			}
+		}
+	})
+	return pure
+}
+
+// scannerTables: the token table of the scanner, read off by constant
+// propagation: for every ASCII first character, the (consumed text, token)
+// pairs of the paths on which every consumed character is fixed.
+func (w *World) scannerTables(g *Grammar) error {
+	n := 0
+	for c := rune(1); c < 128; c++ {
+		if unicode.IsSpace(c) {
+			continue // skipped before the token proper; G-TOKENS checks that separately
+		}
+		for _, o := range w.scanFrom(g, c) {
+			if o.Cut || o.Text == "" || strings.Contains(o.Text, "?") {
+				continue
+			}
+			n++
+			if o.Panicked {
+				if _, dup := g.TextTok[o.Text]; !dup {
+					g.TextTok[o.Text] = -1
+				}
+				continue
+			}
+			if o.Tok < 0 {
+				continue
+			}
+			if prev, dup := g.TextTok[o.Text]; dup && prev >= 0 && prev != o.Tok {
+				g.TextTok[o.Text] = -2 // two different tokens for one spelling
+				continue
+			}
+			g.TextTok[o.Text] = o.Tok
+		}
+	}
+	if n == 0 {
+		return fmt.Errorf("anchor: no token could be read off the scanner (nextItem not interpretable)")
+	}
+	return nil
 }
 
 // ---- RangeTable interpretation (for isName) ----
